@@ -226,6 +226,8 @@ class FnWiring:
                 if isinstance(root, ast.Name):
                     key = S.unparse(base)
                     self.appends.setdefault(key, []).append((frozenset(c._args[-1]), c.func.attr, c, guards))
+                    self.append_roots = getattr(self, "append_roots", {})
+                    self.append_roots.setdefault(key, (root.id, set(), c.lineno))[1].update(d for d in env.get(root.id, ()) if d[0] != "appended")
                     if isinstance(base, ast.Name) and base.id in env:
                         env[base.id] = set(env[base.id]) | {("appended", c.func.attr, d) for d in c._args[-1]}
             if self._noreturn(c):
